@@ -673,6 +673,22 @@ func (c *glCtx) builtin(name string, call *ast.CallExpr, n int) []string {
 		c.fail(call, "len of %s", t)
 	case "cap":
 		c.fail(call, "cap")
+	case "new":
+		// new(T) for a struct / array T: pointers to structs are the struct value (no aliasing in the subset)
+		pt, ok := c.typeOf(call).Underlying().(*types.Pointer)
+		if !ok {
+			c.fail(call, "new of %s", c.typeOf(call))
+		}
+		switch pt.Elem().Underlying().(type) {
+		case *types.Struct, *types.Array:
+		default:
+			c.fail(call, "new of %s", pt.Elem())
+		}
+		z, ok := c.g.zero(pt.Elem())
+		if !ok {
+			c.fail(call, "new of %s", pt.Elem())
+		}
+		return []string{z}
 	case "make":
 		t := c.typeOf(call)
 		sl, ok := t.Underlying().(*types.Slice)
